@@ -12,7 +12,7 @@ import json, os, shutil, subprocess, sys
 
 wt_name, sid, prop = sys.argv[1:4]
 extra = sys.argv[4:]
-wt = f"/tmp/wt/{wt_name}"
+wt = wt_name if wt_name.startswith("/") else f"/tmp/wt/{wt_name}"
 
 def sh(cmd, cwd=wt, timeout=3000):
     return subprocess.run(cmd, shell=True, cwd=cwd, capture_output=True, text=True, timeout=timeout)
